@@ -43,6 +43,28 @@ MISSED_FIRST = {
     "C18-pole-inplace-normalise": "exp after accessors on scaled twists",
     "C19-intersect-plane-inplace": "Plane object used for two intersections",
     "C20-cross-cache-stale": "one live velocity object across item assignment / pop / append",
+    # round 5
+    "C01-imul-inplace-int-dtype": "integer-typed members (constructors given Python ints) pooled; augmented forms x *= g, x /= g, x **= n in the expression programs",
+    "C02-se2-inv-cache-stale": "`SeqMachine` observations `PeekInv / PeekProd / PeekDivL`; SeqMachine behaviours replayed in C02 too",
+    "C03-log-multi-twist-positional": "`Screw.Multi3 / Multi2` (class-level forms on sequences) - found and repaired 5 defects",
+    "C03-so3-exp-3x3-branch-order": "same (N = 3 rows with so3=False)",
+    "C06-uq-mul-int-dtype": "element type int of the points in `PointAction.OneToMany`",
+    "C07-uq-3x3-check-default": "pseudo-class `UnitQuaternion(R)` in `Validity` (items are matrices with SO3 kinds)",
+    "C10-iter-shared-cursor": "`SMList.IterateNested / IterateZip`",
+    "C11-uq-interp-shortest-needs-dest": "double-cover routes (negated quaternion operands)",
+    "C12-dq-norm-drops-conj": "screw motions with non-zero pitch from `Screw` for the dual norm",
+    "C12-uq-inner-abs-clip": "`inner` events on UnitQuaternion objects with negative products",
+    "C13-adjoint-isclose-translation": "rotations of differential size (1e-9..1e-2) in the law instances",
+    "C14-twist3-unit-isunit-fastpath": "twist scales 'Euclidean norm 1' and 'already unit' (`Normalise.tot2`)",
+    "C15-so2-vector-unit-unvalidated": "sequence forms in `Api.UnitIn` (vector of angles, N x 3 triples, twist exp)",
+    "C16-qpow-sym-negative": "`qpow(n)` for n in -3..3 in `Api.SymApi`",
+    "C16-import-object-nocheck": "vector call forms of the SE3 constructor in `Api.SymApi`",
+    "C17-spatialvector-copy-shares-list": "spatial-vector and Pluecker classes in the `Sharing` replay",
+    "C17-repr-empty-printoptions-leak": "process-wide state (NumPy print options, error state) compared around every reflected call; empty receivers",
+    "C18-unitvec-isclose-unit": "axis lengths 1.000004, 0.999994, 1 + 3e-8",
+    "C19-contains-array-drops-tol": "`contains(x, tol=...)` with a data-scaled tolerance, single point and 3 x N array",
+    "C19-eq-abs-dot": "`LineCases` kind 'reversed' (same points, opposite orientation)",
+    "C20-cross-allclose-zero": "`crm_near` events: v x (K v + d) = K (v x d) judged by TLC",
 }
 
 
